@@ -1,25 +1,26 @@
 """C25 — jq value identities hold for every value."""
 
 
-class _Ans(str):
-    def __eq__(self, other):
-        a, b = str(self), str(other)
-        if "ID-FAIL" in a.split("|")[-1] and "OUT-OF-FRAGMENT" not in a:
-            # the implementation's own identity verdict failed: always a violation unless the
-            # model reproduces exactly the same answer (then it is the same recorded finding)
-            return a == b
-        if "EVALS-DISAGREE" in a or "PANIC" in a:
-            return a == b
-        pa, pb = a.split("|"), b.split("|")
-        if len(pa) != len(pb):
-            return False
-        # per identity: equal, or the model has no verdict for that program
-        return all(x == y or "OUT-OF-FRAGMENT" in y for x, y in zip(pa[:-1], pb[:-1]))
+def _verdict(req, impl, model):
+    """The implementation's own identity verdict (ID-FAIL), EVALS-DISAGREE and PANIC always need an
+    identical model answer; otherwise each identity's run line must equal the model's unless the model
+    has no verdict for that program."""
+    if impl.split("|")[-1] == "ID-FAIL" or "EVALS-DISAGREE" in impl or "PANIC" in impl:
+        return "agree" if impl == model else "disagree"
+    pa, pb = impl.split("|"), model.split("|")
+    if len(pa) != len(pb):
+        return "disagree"
+    if any(x != y and "OUT-OF-FRAGMENT" not in y for x, y in zip(pa[:-1], pb[:-1])):
+        return "disagree"
+    return "skip" if all("OUT-OF-FRAGMENT" in y for y in pb[:-1]) else "agree"
 
-    def __ne__(self, other):
-        return not self.__eq__(other)
 
-    __hash__ = str.__hash__
+def _counters(triples):
+    return {
+        "identity_ok": sum(1 for t in triples if t[1].endswith("|ID-OK")),
+        "identity_fail": sum(1 for t in triples if t[1].endswith("|ID-FAIL")),
+        "model_identity_ok": sum(1 for t in triples if t[2].endswith("|ID-OK")),
+    }
 
 
 CFG = {
@@ -38,7 +39,8 @@ CFG = {
     "lean_modules": ["SuccinctlyVerif.Props.C25"],
     "lean_files": ["SuccinctlyVerif/Props/C25.lean", "SuccinctlyVerif/Model/JqValue.lean", "SuccinctlyVerif/Model/Jq.lean"],
     "generated": [],
-    "canon": lambda req, out: _Ans(out),
+    "verdict": _verdict,
+    "counters": _counters,
     "nontrivial": lambda req, out: req.split(" ")[3][:2] in ("5b", "7b"),
     "rule": "request = one generated duplicate-free JSON value (all identities evaluated on it and on each of its paths); "
             "non-trivial = the value is a container (request longer than the bare identity list)",
